@@ -49,7 +49,15 @@ def gen_history(rng, nclients: int, maxlen: int, with_drops: bool = True):
         if k == "get":
             ops.append(["get", c, pick(KEYS)])      # (lock keys hold raw tokens, not serializer output: they are probed with exists)
         elif k == "getmany":
-            ops.append(["getmany", c, rng.sample(KEYS + ["k:zz"], rng.randint(1, 3))])
+            ks = rng.sample(KEYS + ["k:zz"], rng.randint(1, 3))
+            if rng.random() < 0.2:
+                ks.insert(rng.randint(0, len(ks)), pick(ks))        # a key asked for twice: one answer per position
+            if rng.random() < 0.35:
+                # a caller's default that a stored value may EQUAL (0, None): the answer must not be remembered as "absent"
+                ops.append(["getmany", c, ks, pick(["i0", "none"])])
+                ops.append(["get", c, pick(ks)])
+            else:
+                ops.append(["getmany", c, ks])
         elif k == "exists":
             ops.append(["exists", c, pick(KEYS + LOCKS)])
         elif k == "getmatch":
@@ -296,6 +304,57 @@ def gen_echo_history(rng, nclients: int, index: int, per_history: int = 4):
     return ops
 
 
+# ---------------------------------------------------------------------------------------------- prefixes and key alphabets
+
+DEFAULT_PREFIX = "cashews:"
+PREFIXES = [None, "c:", None, "k:", "v1:"]       # None = the default `client_side_prefix`; short custom ones occur INSIDE ordinary keys
+
+
+def keymaps(prefix: str | None):
+    """renamings of the abstract key alphabet (k:a, k:b, j:a, k:zz, L:a) into keys that stress prefixing / unprefixing:
+    0 plain;  1 the prefix text again INSIDE the key, a key EQUAL to the prefix, the prefix at the end of a key;
+    2 keys that are prefixes of each other, a fragment of the prefix, the doubled prefix.
+    (The get_match patterns of the generators never match a key starting with "L:", which holds a raw lock token.)"""
+    p = prefix or DEFAULT_PREFIX
+    return [
+        {},
+        {"k:a": "k:" + p + "a", "j:a": p, "k:zz": "k:zz" + p, "L:a": "L:" + p + "a"},
+        {"k:a": "k:", "k:b": "k:" + p, "j:a": p[:-1], "k:zz": p + p},
+    ]
+
+
+def rename_ops(ops, km: dict):
+    """apply a key renaming to the key arguments of a history (patterns are left as they are)"""
+    if not km:
+        return ops
+    r = lambda k: km.get(k, k)  # noqa: E731
+    out = []
+    for op in ops:
+        n = op[0]
+        op = list(op)
+        if n in ("get", "exists", "delete", "getexpire", "set", "incr", "expire", "setlock", "unlock"):
+            op[2] = r(op[2])
+        elif n in ("getmany", "delmany"):
+            op[2] = [r(k) for k in op[2]]
+        elif n == "setmany":
+            op[3] = [[r(k), v] for k, v in op[3]]
+        out.append(op)
+    return out
+
+
+def case_keys(ops) -> list[str]:
+    """every key named in a history, in order of first appearance"""
+    seen: list[str] = []
+    for op in ops:
+        n = op[0]
+        ks = ([op[2]] if n in ("get", "exists", "delete", "getexpire", "set", "incr", "expire", "setlock", "unlock") else
+              list(op[2]) if n in ("getmany", "delmany") else [kv[0] for kv in op[3]] if n == "setmany" else [])
+        for k in ks:
+            if k not in seen:
+                seen.append(k)
+    return seen
+
+
 def model_line(op, codec: Codec) -> str:
     n = op[0]
     if n == "adv":
@@ -325,20 +384,22 @@ def model_line(op, codec: Codec) -> str:
 
 
 class Runner:
-    def __init__(self, drv: rs.PersistentDriver, nclients: int):
+    def __init__(self, drv: rs.PersistentDriver, nclients: int, prefix: str | None = None):
         self.drv = drv
         self.n = nclients
+        self.prefix = prefix            # None: the default client_side_prefix
 
     async def setup(self):
         from cashews.backends.redis.client_side import BcastClientSide
 
-        self.hub = rs.Hub(self.drv, self.n)
+        self.hub = rs.Hub(self.drv, self.n, self.prefix)
         rs.unregister()
         self.clients = []
         for i in range(self.n):
             url = f"redis://c{i}:6379"
             rs.register(self.hub.ports[i], url)
-            b = BcastClientSide(address=url, suppress=True)
+            b = (BcastClientSide(address=url, suppress=True) if self.prefix is None else
+                 BcastClientSide(address=url, suppress=True, client_side_prefix=self.prefix))
             await b.init()
             if not b._listen_started.is_set():
                 raise HarnessError(f"listener of client {i} did not start")
@@ -373,27 +434,19 @@ class Runner:
         raise HarnessError("announcement queues never drained")
 
     async def server_value(self, key: str) -> tuple[str, bool]:
-        ans = self.drv.ask("sget " + hx(PREFIX + key))
+        # (the driver adds the prefix: Model/ClientSidePrefix.lean addPrefix)
+        ans = self.drv.ask("sget " + hx(key))
         v, p = ans.split(" ")
         return v.split("=", 1)[1], p.endswith("T")
 
     async def server_match(self, pattern: str) -> tuple[str, str]:
-        """the server's keys matching the pattern and its readable content under them (prefix stripped)"""
-        ans = self.drv.ask("smatch " + hx(PREFIX + pattern))
+        """the server's keys matching the (prefixed) pattern and its readable content under them, as the caller names them
+        (the driver translates with addPrefix / removePrefix)"""
+        ans = self.drv.ask("smatch " + hx(pattern))
         if not ans.startswith("ks="):
             raise HarnessError(f"driver answered {ans!r} to smatch")
         ks, ps = ans.split(" ")
-        pfx = PREFIX.encode().hex()
-
-        def strip(items):
-            out = []
-            for it in items.split(",") if items else []:
-                if not it.startswith(pfx):
-                    raise HarnessError(f"key without the prefix on the stub server: {it}")
-                out.append(it[len(pfx):])
-            return ",".join(out)
-
-        return "ks=" + strip(ks[3:]), "ps=" + strip(ps[3:])
+        return ks, ps
 
     async def exec_op(self, op):
         n = op[0]
@@ -408,11 +461,14 @@ class Runner:
             want, _ = await self.server_value(op[2])
             return "v=" + await tok(await b.get(op[2], default=SENT)), "v=" + want
         if n == "getmany":
+            dflt = SENT if len(op) < 4 else VALUES[op[3]]
+            dtok = await tok(dflt)
             want = [(await self.server_value(k))[0] for k in op[2]]
-            vs = await b.get_many(*op[2], default=SENT)
-            if len(vs) != len(op[2]):
-                return f"?shape:{len(vs)}", None
-            return "vs=" + ",".join([await tok(v) for v in vs]), "vs=" + ",".join(want)
+            vs = await b.get_many(*op[2], default=dflt)
+            if not isinstance(vs, tuple) or len(vs) != len(op[2]):
+                return f"?shape:{len(vs)} answers for {len(op[2])} keys", None
+            # (with a default of the caller's, "nothing there" reads as that default)
+            return "vs=" + ",".join([await tok(v) for v in vs]), "vs=" + ",".join(dtok if w == "-" else w for w in want)
         if n == "exists":
             _, p = await self.server_value(op[2])
             return _bool(await b.exists(op[2])), "T" if p else "F"
@@ -495,9 +551,11 @@ class Runner:
         raise HarnessError(f"unknown op {op!r}")
 
 
-def run_case(drv, nclients, ops):
+def run_case(drv, nclients, ops, prefix=None):
+    lockeys = case_keys(ops)
+
     async def go():
-        rn = Runner(drv, nclients)
+        rn = Runner(drv, nclients, prefix)
         await rn.setup()
         steps = []
         for op in ops:
@@ -514,6 +572,9 @@ def run_case(drv, nclients, ops):
             if not a.startswith("model="):
                 raise HarnessError(f"driver answered {a!r} to `{line}`")
             model = a.split(" ")[0].split("=", 1)[1]
+            if op[0] == "getmany" and len(op) > 3 and model.startswith("vs="):
+                dtok = await rn.codec.tok(VALUES[op[3]])
+                model = "vs=" + ",".join(dtok if x == "-" else x for x in model[3:].split(","))
             mq = a.split(" q=")[1]
             # the model delivers explicitly: after every command, every connected client
             if op[0] not in ("drop",):
@@ -526,7 +587,7 @@ def run_case(drv, nclients, ops):
             if rn.dropped or op[0] in ("reconnect", "refuse", "drop"):
                 # what the model says the local copies of the clients in an outage hold at this point (shown in replays)
                 who = sorted(rn.dropped | ({op[1]} if op[0] in ("reconnect", "refuse", "drop") else set()))
-                step["model_local"] = {str(i): drv.ask(f"loc {i} " + " ".join(hx(k) for k in KEYS + ["k:zz"] + LOCKS)) for i in who}
+                step["model_local"] = {str(i): drv.ask(f"loc {i} " + " ".join(hx(k) for k in lockeys)) for i in who}
             steps.append(step)
         return steps            # (no close(): it would wait for the parked listeners; vtime.run cancels them)
 
